@@ -50,13 +50,18 @@ func verifIsExpression(n Node) bool { return n.IsExpression() }
 //@ spec startchar(n) = uf("ast.startchar", int, n)
 
 //@ func (*Map).SortedKeys
-//@ props C05 C03
+//@ props C05 C03 C01
 //@ requires m != nil
 //@ assume[ast.items.nonnil] forallU(k, Expression, haskey(m.items, k) ==> k != nil && ref(k) != nil && m.items[k] != nil && ref(m.items[k]) != nil)
 //@ modifies nothing
 //@ invariant 1: len(keys) == iter && fresh(keys) && forall(j, 0, len(keys), keys[j] != nil && haskey(m.items, keys[j]) && seen(keys[j]) && ref(keys[j]) != nil && m.items[keys[j]] != nil && ref(m.items[keys[j]]) != nil) && forall(i, 0, len(keys), forall(j, i + 1, len(keys), keys[i] != keys[j]))
 //@ sortby[C05.astkeys.less] 1: startchar(keys[i]) < startchar(keys[j])
 //@ ensures[C05.astkeys.sorted] forall(i, 0, len(result), forall(j, i, len(result), startchar(result[i]) <= startchar(result[j])))
+// C01 (left-to-right evaluation: compileMap emits the entries of a map literal in the order of this list, so the list
+// has to be in source order - by position in the text, not by anything else: seed C01h ordered the keys by their text,
+// which evaluated `{"b": f(), "a": g()}` as g() then f())
+//@ sortby[C01.order.map.less] 1: startchar(keys[i]) < startchar(keys[j])
+//@ ensures[C01.order.map] forall(i, 0, len(result), forall(j, i, len(result), startchar(result[i]) <= startchar(result[j])))
 //@ ensures[C05.astkeys.members] forall(j, 0, len(result), result[j] != nil && haskey(m.items, result[j]))
 //@ ensures[C03.astkeys.nonnil] forall(j, 0, len(result), ref(result[j]) != nil && m.items[result[j]] != nil && ref(m.items[result[j]]) != nil)
 //@ ensures[C05.astkeys.distinct] forall(i, 0, len(result), forall(j, i + 1, len(result), result[i] != result[j]))
